@@ -14,7 +14,7 @@
    quadratures of the six shape-dependent models, the time-dependent g-factor and
    the uniaxial reduction are validated on the implementation by
    harness/props/c05.py, not proved. *)
-From Coq Require Import QArith Reals List Bool String.
+From Coq Require Import QArith Reals List Bool String Lra.
 From SV Require Import model.Life proofs.LifeInvariance model.Weibull proofs.WeibullProofs proofs.WeibullLaws gen.WeibullTables.
 Import ListNotations.
 
@@ -78,3 +78,63 @@ Theorem C05_aggregation :
   exp (sumR (map (fun mx => (INR (fst mx) * snd mx)%R) l)) = prodR (map (fun mx => (exp (snd mx) ^ fst mx)%R) l).
 Proof. exact exp_weighted_sum. Qed.
 Print Assumptions C05_aggregation.
+
+(* all eight models at zero service time: the element formula over an orientation grid with any
+   positively homogeneous equivalent stress *)
+Theorem C05_all_models_logR_nonpos :
+  forall pw : R -> R -> R, (forall x m, 0 <= x -> 0 <= pw x m)%R ->
+  forall (O : Type) (se : R * R * R -> O -> R) c V m p grid,
+  (0 <= c)%R -> (0 <= V)%R -> (forall ow, In ow grid -> 0 <= snd ow)%R -> (logR pw O se c V m p grid <= 0)%R.
+Proof. exact logR_nonpos. Qed.
+Print Assumptions C05_all_models_logR_nonpos.
+
+Theorem C05_all_models_volume_linear :
+  forall pw (O : Type) (se : R * R * R -> O -> R) c V V' m p grid,
+  logR pw O se c (V + V') m p grid = (logR pw O se c V m p grid + logR pw O se c V' m p grid)%R.
+Proof. exact logR_volume_linear. Qed.
+Print Assumptions C05_all_models_volume_linear.
+
+Theorem C05_all_models_zero_time_homogeneous :
+  forall pw : R -> R -> R, (forall l x m, 0 <= l -> 0 <= x -> pw (l * x) m = pw l m * pw x m)%R ->
+  forall (O : Type) (se : R * R * R -> O -> R), (forall l p o, 0 <= l -> se (scale3 l p) o = l * se p o)%R ->
+  forall c V m p grid l, (0 <= l)%R -> logR pw O se c V m (scale3 l p) grid = (pw l m * logR pw O se c V m p grid)%R.
+Proof. exact logR_homogeneous. Qed.
+Print Assumptions C05_all_models_zero_time_homogeneous.
+
+Theorem C05_all_models_scale_antitone :
+  forall pw : R -> R -> R, (forall x m, 0 <= x -> 0 <= pw x m)%R ->
+  (forall l x m, 0 <= l -> 0 <= x -> pw (l * x) m = pw l m * pw x m)%R -> (forall l m, 1 <= l -> 1 <= pw l m)%R ->
+  forall (O : Type) (se : R * R * R -> O -> R), (forall l p o, 0 <= l -> se (scale3 l p) o = l * se p o)%R ->
+  forall c V m p grid l, (0 <= c)%R -> (0 <= V)%R -> (forall ow, In ow grid -> 0 <= snd ow)%R -> (1 <= l)%R ->
+  (logR pw O se c V m (scale3 l p) grid <= logR pw O se c V m p grid)%R.
+Proof. exact logR_scale_antitone. Qed.
+Print Assumptions C05_all_models_scale_antitone.
+
+(* the equivalent stresses of the models are such functions: MTS and Shetty (se_half b), coplanar
+   strain energy (se_cse b), averaged normal stress (se_normal) *)
+Theorem C05_equivalent_stresses_homogeneous :
+  (forall b l p o, 0 <= l -> se_half b (scale3 l p) o = l * se_half b p o)%R /\
+  (forall b l p o, 0 <= l -> se_cse b (scale3 l p) o = l * se_cse b p o)%R /\
+  (forall l p o, 0 <= l -> se_normal (scale3 l p) o = l * se_normal p o)%R.
+Proof. split; [exact se_half_homogeneous | split; [exact se_cse_homogeneous | exact se_normal_homogeneous]]. Qed.
+Print Assumptions C05_equivalent_stresses_homogeneous.
+
+Theorem C05_compressive_no_tensile_normal :
+  forall p o : R * R * R,
+  (let '(a, b, c) := p in a <= 0 /\ b <= 0 /\ c <= 0)%R -> (let '(c1, c2, c3) := o in 0 <= c1 /\ 0 <= c2 /\ 0 <= c3)%R ->
+  pos (se_normal p o) = 0%R.
+Proof. exact compressive_no_tensile_normal. Qed.
+Print Assumptions C05_compressive_no_tensile_normal.
+
+(* non-vacuity: the hypotheses on the power function are satisfiable (x |-> x^2) *)
+Example C05_power_hypotheses_satisfiable :
+  let pw := fun (x m : R) => (x * x)%R in
+  (forall x m, 0 <= x -> 0 <= pw x m)%R /\ (forall m, pw 0 m = 0)%R /\
+  (forall l x m, 0 <= l -> 0 <= x -> pw (l * x) m = pw l m * pw x m)%R /\ (forall l m, 1 <= l -> 1 <= pw l m)%R.
+Proof.
+  cbv zeta. repeat split; intros.
+  - apply Rmult_le_pos; assumption.
+  - apply Rmult_0_l.
+  - ring.
+  - replace 1%R with (1 * 1)%R by ring. apply Rmult_le_compat; lra.
+Qed.
